@@ -551,6 +551,15 @@ impl<F: Field + PrimeCharacteristicRing + Copy, const D: usize> AluAir<F, D> {
                             for s in 0..num_int {
                                 let i0 = *first_idx + step;
                                 let i1 = *first_idx + step + 1;
+                                if step >= k {
+                                    // Arity below K_max: the remaining intermediate slots are
+                                    // unconstrained. Do not read past this packed row's ops
+                                    // (which may be past the end of the trace).
+                                    let off = extra + s * D;
+                                    values[off..off + D]
+                                        .copy_from_slice(acc.as_basis_coefficients_slice());
+                                    continue;
+                                }
                                 let v0 = &trace.values[i0];
                                 if i1 < *first_idx + k {
                                     let v1 = &trace.values[i1];
